@@ -2,11 +2,46 @@
 from common import SAN_BASE
 
 PROP = dict(
-        technique="runtime monitoring: ASan/UBSan/LSan build + id->registration model; every handler invocation is an observed event",
-        level_text="(draft)",
-        level_note="(draft)",
-        legs=[dict(name="c11_dispatch", src=["c11_dispatch.c"], libs=["mptcore"], batch=256, lsan=True,
-                   floors={})],
-        rule="(draft)",
-        assumptions=SAN_BASE,
+        technique=("runtime monitoring: ASan/UBSan/LSan build; model id -> registration, default id, fallback; every invocation of a "
+                   "harness handler (delivery or end-of-life) is an observed event compared with the model while the operation runs"),
+        level_text=("Monitored executions of the real dispatcher: 100k (quick) / 1M (thorough) random histories of register / refuse duplicate / "
+                    "clear / replace and delete through mpt_command_set / emit by id, by message (first byte, also fragmented), default event / "
+                    "mpt_dispatch_hash on command messages (NUL and blank separated, fragmented, also nested inside a handler registered for "
+                    "MessageCommand) / fini+init, over a domain of 6 message ids, 6 command-word hashes and 40 bulk ids, handlers returning every "
+                    "combination of Default/Fail/Terminate or an error and leaving, zeroing or changing ev->id; every 8th case drives "
+                    "mpt_command_reserve on a separate table (mixed widths; width-1 tables run past id 127 and to exhaustion).  After every "
+                    "operation mpt_command_get is compared with the model for the whole domain and the end-of-life count of every registration "
+                    "is checked.  A C++ leg drives mpt::dispatch (set_handler, handler, set_default, set_error, destructor).  "
+                    "Exploration, not proof."),
+        level_note=("trusts the id->registration model in harness/c11_dispatch.c / c11_cxx.cpp, gcc ASan/UBSan/LSan; outcomes of the library's own "
+                    "'unknown event' fallback, of a default id without registration and the default id after mpt_dispatch_hash are adopted, not asserted"),
+        legs=[dict(name="c11_dispatch", src=["c11_dispatch.c"], libs=["mptcore"], batch=512, lsan=True,
+                   floors={"mpt_dispatch_set": 200000, "mpt_dispatch_set(clear)": 100000, "mpt_command_set": 50000,
+                           "mpt_dispatch_emit(id)": 100000, "mpt_dispatch_emit(message)": 100000, "mpt_dispatch_emit(default)": 50000,
+                           "mpt_dispatch_hash": 100000, "mpt_dispatch_hash(nested)": 5000, "mpt_dispatch_fini": 80000,
+                           "mpt_command_reserve": 300000, "mpt_command_clear": 5000,
+                           "emit:delivered-registered": 100000, "emit:delivered-fallback": 100000, "emit:delivered-default": 10000,
+                           "emit:fragmented-message": 50000, "hash:delivered-registered": 50000, "hash:fragmented-message": 50000,
+                           "registration:replaced": 20000, "registration:cleared": 50000, "monitor:duplicate-refused": 20000,
+                           "monitor:delivery-compared": 500000, "monitor:flags-compared": 300000, "monitor:error-propagated": 30000,
+                           "monitor:table-compared": 1000000, "monitor:finalise-compared": 1000000, "monitor:lifetime-accounted": 500000,
+                           "monitor:reserved-id-unique": 300000, "monitor:reserved-compared": 300000,
+                           "history:table-grew": 50000, "history:freed-slot-reused": 30000, "history:reserved-id-wrapped": 1000,
+                           "default:set": 50000, "default:cleared": 10000}),
+              dict(name="c11_cxx", src=["c11_cxx.cpp"], libs=["mpt++", "mptio", "mptplot", "mptcore"], batch=512, lsan=True,
+                   floors={"dispatch::set_handler": 100000, "dispatch::set_handler(clear)": 50000, "dispatch::set_default": 50000,
+                           "dispatch::set_error": 20000, "dispatch::~dispatch": 20000, "monitor:set-default-registered": 10000,
+                           "emit:delivered-registered": 50000, "emit:delivered-default": 5000, "monitor:lifetime-accounted": 100000})],
+        rule=("case = one PRNG history of 10..70 (thorough 120) dispatcher operations ending in mpt_dispatch_fini, or (every 8th case) one "
+              "history of 10..300 reserve/release operations on a reservation table ending in mpt_command_clear; C++ leg: 8..50 operations "
+              "ending in the destructor; non-trivial = at least 3 emits and at least 2 simultaneously live registrations (dispatcher) / at "
+              "least 3 accepted reservations (reserve); distinct = 64-bit hash of the operation list with ids, message bytes and handler answers"),
+        assumptions=SAN_BASE + [
+            "flag protocol of mpt_dispatch_emit: handler result s >= 0, Default in s makes ev->id (as left by the handler) the default id (0 clears); "
+            "the call returns (s without Default) | (Default iff a default id is set); a negative handler result is returned unchanged",
+            "command ids of text commands are mpt_hash(word, length) as computed by the registering caller",
+            "the fallback is installed by writing dispatch._err as examples/io/dispatch.c does (C) / dispatch::set_error (C++)",
+            "reserved ids: entries are activated/deactivated by the owner through command.cmd as mpt_connection_await / mpt_stream_sync do; "
+            "an id fits width w iff id <= 2^(8w-1)-1",
+        ],
     )
